@@ -25,6 +25,8 @@ ASSUMPTIONS = ["diagnostic function objects behave as functions of (net, kwargs 
                "net unchanged by diagnose_network is validated differentially only (table snapshots), not proved"]
 TRUSTED = ["recorder replacement of the `diagnostic` method on the module-level default function objects (harness process only)"]
 
+K_IMP = "C30-implausible-impedance-no-restore"
+IMP_TABLES = {"switch", "line", "impedance", "vsc", "line_dc", "ward", "xward", "trafo", "trafo3w"}
 PRISTINE_KW = dict(default_argument_values)
 PRISTINE_FN = list(default_diagnostic_functions)
 KEYS = list(PRISTINE_KW) + ["extra_a", "extra_b", "numba"]
@@ -247,25 +249,33 @@ def model_view(m, names, kinds):
 
 # ------------------------------------------------------------------ oracle with the real functions
 def snapshot(net):
-    out = {}
-    for k, v in net.items():
-        if isinstance(v, pd.DataFrame) and not k.startswith("res_") and not k.startswith("_"):
-            out[k] = (list(v.index), list(v.columns), [str(t) for t in v.dtypes], v.to_json(orient="split", default_handler=str))
-    return out
+    from vf import c08_snap
+    return c08_snap.snapshot(net)
 
 
 def faulty_net(rng):
+    """small nets with the defects the diagnostic looks for; a large share does not converge as it is (so that the
+    checks that experiment with scalings / switch states on the net run), scaling columns carry non-default values, and
+    there are more sgens than gens"""
     net = nets.rand_net(rng, nb=rng.randint(3, 6), chords=rng.randint(0, 1), n_trafo=rng.choice([0, 1]), sgens=True)
+    buses = [b for b in net.bus.index if net.bus.at[b, "vn_kv"] == 20.0]
+    for _ in range(rng.randint(1, 3)):
+        pp.create_sgen(net, rng.choice(buses), p_mw=rng.randint(1, 8) / 8, q_mvar=0.0, scaling=rng.choice([0.5, 0.75, 1.25]))
+    if rng.random() < 0.5:
+        pp.create_gen(net, rng.choice(buses[1:]), p_mw=rng.randint(1, 8) / 8, vm_pu=1.0, scaling=rng.choice([0.5, 1.0, 1.5]))
+    for t in ("load", "sgen"):
+        if len(net[t]):
+            net[t]["scaling"] = [rng.choice([0.5, 0.75, 1.0, 1.25]) for _ in net[t].index]
     f = rng.random()
-    if f < 0.25:
+    if f < 0.15:
         b = pp.create_bus(net, 20.)          # disconnected bus with a load
         pp.create_load(net, b, 0.1, 0.0)
-    elif f < 0.5:
+    elif f < 0.3:
         net.line.loc[net.line.index[0], "length_km"] = 0.0
-    elif f < 0.7:
+    elif f < 0.4:
         net.bus.loc[net.bus.index[1], "vn_kv"] = 10.0
-    elif f < 0.85:
-        net.load.p_mw *= 400.0
+    elif f < 0.8:
+        net.load["p_mw"] = net.load.p_mw * rng.choice([200.0, 400.0, 1000.0])      # far beyond what the lines can carry
     return net
 
 
@@ -333,7 +343,7 @@ def real_history(ctx, rng):
             i = rng.randrange(len(insts))
             kind = rng.choice([0, 0, 2])
             args = rng.choice([None, ["overload_scaling_factor"], []])
-            name = rng.choice(["probe", "overload", None])
+            name = rng.choice(["probe", "second_probe", None])   # (name clashes are exercised in the recorder histories; here reports are printed)
             p = Probe(kind, log)
             insts[i].register_function(p, args, name)
             regs[i].append((name if name is not None else "Probe", Probe(kind, []), args))
@@ -349,17 +359,27 @@ def real_history(ctx, rng):
                 kw["min_r_ohm"] = rng.choice([0.001, 5.0])
             desc["ops"].append(["diag", i, kw])
             snap = snapshot(net)
+            style = rng.choice([None, "compact", "detailed"])
+            desc["ops"][-1].append(style)
             try:
-                got = insts[i].diagnose_network(net, report_style=None, **kw)
+                got = insts[i].diagnose_network(net, report_style=style, warnings_only=rng.random() < 0.5, **kw)
                 got_err = {n: type(e).__name__ for n, e in insts[i].diag_errors.items()}
             except ValueError:
                 got, got_err = "ValueError", None
             ndiag += 1
-            if snapshot(net) != snap:
-                ctx.violation("spec", "diagnose_network changed the element tables of the network", desc)
+            from vf import c08_snap
+            dd = [x for x in c08_snap.diff(snap, snapshot(net), allow_new_columns=False) if x[1] != "dtype_changed"]
+            # recorded finding: ImplausibleImpedanceValues replaces implausible branches by switches on the net itself and does
+            # not restore the tables when its second power flow raises an exception it does not expect
+            imp_err = not isinstance(got, str) and "implausible_impedance_values" in insts[i].diag_errors
+            if dd:
+                known = imp_err and all(t in IMP_TABLES for t, _, _ in dd)
+                ctx.violation(K_IMP if known else "spec", "diagnose_network changed the element tables of the network: %s" % (dd[:3],), desc)
+            ctx.count("real_base_pf_%s" % ("not_converged" if "overload" in (got if isinstance(got, dict) else {}) else "other"))
             exp, exp_err = reference(net, flags[i], regs[i], kw)
             if canon_res(got) != canon_res(exp) or got_err != exp_err:
-                ctx.violation("spec", "diagnose_network result depends on more than the network, the instance's own functions and the "
+                # (when the impedance check left the net modified, the checks after it in the same call saw another net)
+                ctx.violation(K_IMP if (imp_err and dd and "implausible_impedance_values" not in (exp_err or {})) else "spec", "diagnose_network result depends on more than the network, the instance's own functions and the "
                               "arguments of the call: got results %s errors %s, reference %s / %s" % (
                                   canon_res(got)[:200], got_err, canon_res(exp)[:200], exp_err), desc)
             ctx.count("real_nonempty_result" if got not in ({}, "ValueError") else "real_empty_result")
